@@ -1,5 +1,6 @@
 //@unit name=wal props=C17,C01
 //@strip-pub
+//@rlimit 40
 // Unit `wal`: the write-ahead log as an append-only sequence (DESIGN Appendix A.2).
 // Bodies of //@fn and //@item blocks are extracted verbatim from /repo at run time.
 //@trusted [env] BlockZero/WalBlock (MemBlock<..>, raw-pointer code in storage/core/buffer.rs) are abstract values with an image(): Seq<u8>; meta()/recs() are uninterpreted decodings of that image; the contracts of metadata/metadata_mut/available_space/try_push/as_ref/as_mut/record/alloc are ASSUMED here and checked separately, bounded, by the Kani unit walbytes on the real code
